@@ -1572,3 +1572,13 @@ package zygo
 //@ func splitColonTailSelectorSymbols
 //@ C06 preserves SexpSymbol.colonTail
 //@ C06 preserves SexpSymbol.name
+
+// C05: the state of an interpreter is enumerated. The control state (pc, curfunc, the three
+// stacks' depths, linearstack) is captured and restored around every evaluation; loopstack is
+// balanced by the compiler; the tables (symtable, revsymtable, nextsymbol, builtins, reserved,
+// macros, infixOps, baseTypeCtor) only grow by definitions that succeeded; the rest is
+// configuration set before evaluation. A new field is state nobody has classified (memo tables
+// and counters are how a failed or repeated evaluation leaves a trace): it fails this obligation
+// until it is reviewed and listed. Same for the delayed-argument record.
+//@ fieldsclosed C05 Zlisp | parser, datastack, addrstack, linearstack, loopstack, symtable, revsymtable, builtins, reserved, macros, curfunc, mainfunc, pc, nextsymbol, before, after, debugExec, debugSymbolNotFound, showGlobalScope, baseTypeCtor, infixOps, Pretty, booter, WrapLoadExpressionsInInfix, sandboxed
+//@ fieldsclosed C05 SexpLazyArg | Expr, Stack, CurFunc, Forced, Value
